@@ -25,6 +25,12 @@ def run_property(pid: str, tier: str, only=None, src=None, quiet=False) -> int:
         mod.run(prog, rep)
         if tier == "thorough" and hasattr(mod, "thorough"):
             mod.thorough(prog, rep)
+        if tier == "thorough" and src is None and not os.environ.get("SA_REPO"):
+            known = {k["key"] for k in __import__("sa.report", fromlist=["load_known"]).load_known()}
+            if not any(f.key not in known for f in rep.findings) and not rep.undecided:
+                # the self-test of the rules is meaningful only on a tree the rules accept
+                from . import selftest
+                selftest.run_for(pid, rep)
         return rep.finish()
     except AnalysisError as e:
         print(f"ANALYSIS-ERROR property={pid} {e}")
